@@ -11,18 +11,53 @@ long nondet_long(void); unsigned nondet_uint(void); _Bool nondet_bool(void);
 /* ---- ASSUMED models ---- */
 long thread_getid(void) { return nondet_long(); }
 void logelem_ctor(struct logelem_m *le, long tid, long *str, unsigned level, const char *fl, unsigned val)
-{ le->tid = tid; le->str = *str; le->level = level; le->fileline = fl; le->val = val; }
+{ le->tid = tid; le->_str = *str; le->level = level; le->fileline = fl; le->val = val; }
 /* ghost log of the queue */
 long g_push_calls, g_accepted; _Bool g_last_accepted; long g_last_str; unsigned g_last_level, g_last_val;
 _Bool queue_try_push(struct queue_m *q, struct logelem_m *le)
 {
   _Bool ok = nondet_bool();                  /* the queue accepts or refuses */
   g_push_calls++; g_last_accepted = ok;
-  if (ok) { g_accepted++; g_last_str = le->str; g_last_level = le->level; g_last_val = le->val; }
+  if (ok) { g_accepted++; g_last_str = le->_str; g_last_level = le->level; g_last_val = le->val; }
   return ok;
 }
+/* ---- the consumer side: the queue as a ghost FIFO of accepted lines, with the stop marker (an empty line) that stop() enqueues AFTER requesting the stop ---- */
+long g_q_lines;                      /* accepted lines not yet popped */
+_Bool g_stop_requested, g_marker_in_queue; long g_processed, g_released, g_pops;
+struct logelem_m g_popped;
+_Bool stop_requested(const void *token) { if (!g_stop_requested && nondet_bool()) g_stop_requested = 1; return g_stop_requested; }   /* stop() may be called at any moment */
+_Bool stop_not_requested(const void *token) { return !stop_requested(token); }
+static void env_step(void)
+{
+  /* what other threads may do between two steps of the consumer: producers submit more lines until stop() has been called; stop() enqueues the marker after its request */
+  if (!g_stop_requested) { long k = nondet_long(); __CPROVER_assume(k >= 0 && k <= 1000 && g_q_lines + k <= 1000000000L); g_q_lines += k; }
+  else if (!g_marker_in_queue && nondet_bool()) g_marker_in_queue = 1;
+}
+_Bool queue_try_pop(struct queue_m *q, struct logelem_m **out)
+{
+  env_step();
+  if (g_pops < 1000000000L) g_pops++;
+  if (g_q_lines > 0) { g_q_lines--; g_popped._str = 1 + (nondet_long() & 0xffff); *out = &g_popped; return 1; }      /* FIFO: lines come out before the marker */
+  if (g_marker_in_queue) { g_marker_in_queue = 0; g_popped._str = 0; *out = &g_popped; return 1; }
+  return 0;
+}
+void queue_release(struct queue_m *q, struct logelem_m *e) { if (g_released < 1000000000L) g_released++; }
+_Bool str_empty_id(const long *s) { return *s == 0; }
+void sleep_model(unsigned us) { }
+struct FIX8_Logger;
+void logger_process_logline(struct FIX8_Logger *self, struct logelem_m *e) { __CPROVER_assert(e->_str != 0, "C28.consumer.the_stop_marker_is_never_written_as_a_line"); if (g_processed < 1000000000L) g_processed++; }
 '''
 POST = r'''
+/* the consumer thread's body: every accepted line is written before it ends */
+void h_consumer(void)
+{
+  struct FIX8_Logger lg;
+  g_q_lines = nondet_long(); __CPROVER_assume(g_q_lines >= 0 && g_q_lines <= 1000000); g_stop_requested = nondet_bool(); g_marker_in_queue = 0; g_processed = 0; g_released = 0; g_pops = 0;
+  logger_consumer(&lg);
+  __CPROVER_assert(g_q_lines == 0, "C28.consumer.ends_only_when_every_accepted_line_has_been_written");
+  __CPROVER_assert(g_stop_requested, "C28.consumer.ends_only_after_stop_was_requested");
+  VACUITY_PROBE();
+}
 /* enqueue: exactly one submission, and the return value says whether the queue accepted it */
 void h_enqueue(void)
 {
@@ -60,16 +95,20 @@ UNIT = dict(
                   (r'FIX8::ff_unbounded_queue<FIX8::Logger::LogElement>', 'struct queue_m'),
                   (r'(const )?FIX8::Logger::LogElement', 'struct logelem_m'),
                   (r'FIX8::Logger::Level', 'unsigned int'), (r'FIX8::ebitset<FIX8::Logger::Level>::integral_type', 'unsigned int'),
-                  (r'(FIX8::)?thread_id_t', 'long')],
+                  (r'(FIX8::)?thread_id_t', 'long'), (r'FIX8::f8_thread_cancellation_token', 'int')],
         lazy_structs=[r'FIX8::Logger', r'FIX8::ebitset<.*>'],
         calls={'getid': 'thread_getid',
                'FIX8::Logger::LogElement::LogElement': 'logelem_ctor',
                'struct logelem_m::LogElement': 'logelem_ctor',
                'FIX8::ff_unbounded_queue<FIX8::Logger::LogElement>::try_push': dict(c='queue_try_push', sig='bool (const FIX8::Logger::LogElement &)'),
+               'FIX8::ff_unbounded_queue<FIX8::Logger::LogElement>::try_pop': dict(c='queue_try_pop', sig='bool (FIX8::Logger::LogElement *&)'),
+               'FIX8::ff_unbounded_queue<FIX8::Logger::LogElement>::release': 'queue_release', 'hypersleep': 'sleep_model',
+               'FIX8::f8_thread_cancellation_token::operator!': 'stop_not_requested', 'FIX8::f8_thread_cancellation_token::operator bool': 'stop_requested',
+               'std::basic_string<char>::empty': 'str_empty_id', 'FIX8::Logger::process_logline': 'logger_process_logline',
                'FIX8::Logger::is_loggable': 'logger_is_loggable',
                'FIX8::Logger::enqueue': dict(c='logger_enqueue', sig='bool (const std::string &, FIX8::Logger::Level, const char *, const unsigned int)'),
                'FIX8::ebitset<FIX8::Logger::Level>::operator&': 'levels_and', 'FIX8::ebitset<FIX8::Logger::Level>::has': 'levels_has', 'FIX8::ebitset<FIX8::Logger::Level>::get': 'levels_get'}),
-    pre_structs='struct queue_m { int dummy; };\nstruct logelem_m { long tid; long str; unsigned level; const char *fileline; unsigned val; };\n',
+    pre_structs='struct queue_m { int dummy; };\nstruct logelem_m { long tid; long _str; unsigned level; const char *fileline; unsigned val; };\n',
     prelude=PRELUDE,
     functions=[
         dict(q='FIX8::ebitset::operator&', filter='FIX8::ebitset', mangled='_ZNK4FIX87ebitsetINS_6Logger5LevelEjEanES2_', cname='levels_and', optional=True),
@@ -78,13 +117,17 @@ UNIT = dict(
         dict(q='FIX8::Logger::is_loggable', sig=None, cname='logger_is_loggable'),
         dict(q='FIX8::Logger::enqueue', sig=None, cname='logger_enqueue'),
         dict(q='FIX8::Logger::send', sig=None, cname='logger_send'),
+        dict(q='FIX8::Logger::operator()', sig=None, cname='logger_consumer',
+             loops={0: dict(assigns='received, g_q_lines, g_stop_requested, g_marker_in_queue, g_processed, g_released, g_pops, g_popped',
+                            invariants=[('inv.queue', 'g_q_lines >= 0 && g_q_lines <= 1000000000L && (!g_marker_in_queue || g_stop_requested)')])}),
     ],
     postlude=POST,
     proofs=[
+        dict(name='consumer', harness='h_consumer', loop_contracts=True, properties=['C28'], solvers=['cadical', 'z3'], timeout=dict(quick=300, thorough=900), floor=2, level='proved-modular'),
         dict(name='enqueue', harness='h_enqueue', properties=['C28'], solvers=['cadical', 'z3'], timeout=dict(quick=120, thorough=300), floor=3, level='proved-modular'),
         dict(name='send', harness='h_send', properties=['C28'], solvers=['cadical', 'z3'], timeout=dict(quick=120, thorough=300), floor=5, level='proved-modular'),
     ],
     trusted_base=['ASSUMED: f8_concurrent_queue::try_push returns true exactly when it accepted the element (FastFlow wrapper ff_wrapper.hpp), the LogElement constructor stores its arguments, '
                   'f8_thread::getid returns the caller\'s thread id (model bodies in specs/k_log.py)'],
-    assumptions=['sequential semantics only: the interleaving conjuncts of C28 (exactly once / in order under concurrent producers, stop() versus the consumer thread) are not decided'],
+    assumptions=['the consumer loop is verified against an environment model (other threads act between its steps); producer-side interleavings (exactly once / in order under concurrent producers) are not decided'],
 )
